@@ -10,6 +10,9 @@ spec/extract/FetchLock.tla       layer B (PlusCal): stat / open(O_CREATE) / floc
                                  rename / rename / unlock / close / unlink with the lock on an INODE and open on a PATH
 binding 1: every printed archive is built as tar.gz, zip (and tar.xz through xz/tar) and unpacked by the real
            extractTarGz / extractZip / extractTarXz (injected test); the whole watched parent of dest is compared.
+           Well-formed archives are additionally written in other well-formed encodings of the same entries
+           (multi-member gzip, PAX/GNU/USTAR long names, zero padding, stored/deflated, data descriptors or not,
+           explicit vs implied directories): the same tree is demanded.
 binding 2: the real checkDownloadAndExtractLib from 2-4 goroutines and from separate processes against a loopback
            HTTP server (seeded stress), plus a staged replay of FetchLock's counterexample in which the server
            is the scheduling gate.
@@ -30,6 +33,11 @@ HARNESS = os.path.join(C.VERIF, "harness", "c20")
 ALL5 = '{"a", "b", "..", ".", ""}'
 CASE_LAWS = ["LawCanonicalInside", "LawPlacePlain", "LawOkDetermined", "LawTreeClosed", "Emit"]
 NEG_REP = 1000000
+# container variants of well-formed archives (harness/c20/zz_verif_c20_variants_test.go): same entries, same tree demanded
+VARIANTS = ["targz+members", "targz+members-midfile", "targz+zero-padding", "targz+pax-record", "targz+gnu-longname",
+            "targz+ustar-prefix", "targz+pax-longname", "targz+explicit-dirs", "targz+implied-dirs",
+            "zip+stored", "zip+deflated", "zip+stored-no-descriptor", "zip+deflated-no-descriptor", "zip+explicit-dirs",
+            "zip+implied-dirs"]
 
 
 def shm(chk, name):
@@ -320,6 +328,9 @@ def check(chk):
         for fm in ("targz", "zip"):
             if not any(m["case"] == i and m["fmt"] == fm and m["rule"] == rule for m in mism):
                 raise C.Undecided("negative control %d (%s) not flagged for %s: the replay compares nothing" % (i, rule, fm))
+    for v in VARIANTS:   # the two wrong-tree controls are well-formed archives, so they pass through every variant too
+        if not any(m["case"] in (0, 1) and m["fmt"] == v and m["rule"] == "tree-mismatch" for m in mism):
+            raise C.Undecided("negative control not flagged for container variant %s" % v)
     mism = [m for m in mism if m["case"] >= len(negs)]
 
     # ---- verdicts of binding 1: representatives per (format, rule, kinds) class, smallest archives first
@@ -346,6 +357,11 @@ def check(chk):
 
     runs = {fm: stats.get(fm + ":run", 0) for fm in formats}
     chk.cov["extractions_per_format"] = runs
+    vruns = {v: stats.get(v + ":run", 0) for v in VARIANTS}
+    chk.cov["extractions_per_container_variant"] = vruns
+    for v, n in vruns.items():
+        if n < 10:
+            raise C.Undecided("container variant %s ran only %d times" % (v, n))
     chk.cov["trees_compared_per_format"] = {fm: stats.get(fm + ":tree-compared", 0) for fm in formats}
     chk.cov["unrepresentable_per_format"] = {fm: stats.get(fm + ":unrepresentable", 0) for fm in formats}
     for fm, share in (("targz", 0.8), ("zip", 0.2)):
@@ -368,7 +384,7 @@ def check(chk):
 
     chk.cov["evaluations"] += ncases
     chk.cov["distinct_nontrivial"] += nontrivial
-    chk.cov["traces_validated_against_impl"] += sum(runs.values())
+    chk.cov["traces_validated_against_impl"] += sum(runs.values()) + sum(vruns.values())
 
     # ---- binding 2
     ft.join()
@@ -397,6 +413,8 @@ def check(chk):
     if thorough:
         chk.cov["exhaustive"] = True
     chk.assumptions += [
+        "container variants are applied to well-formed archives only (Demand = ok); the long-name variants re-root every entry under "
+        "a chain of 21 resp. 52 plain segments, the tree demanded is the specification's tree under that chain (parents implied)",
         "segments a/b stand for arbitrary plain names (harness spells them c20a/c20b); contents are seeded pseudo-random bytes of "
         "length 0..40000",
         "dest is 6 levels below the watched root, so every escape expressible with <= 4 '..' segments or one link lands in watched ground; "
